@@ -62,7 +62,7 @@ def _directed(wb):
     import random
     rnd = random.Random(7)
     ins = []
-    for e in wb[:8]:
+    for e in wb[:4]:
         i = e["in"]
         if e["op"] == "pow.required":
             t = i["target"]
@@ -70,13 +70,15 @@ def _directed(wb):
             if t.get("neg"):
                 tv = -tv
             if tv * i["len"] <= 3 ** 11 and i["len"] >= 8:
-                for _ in range(3):
-                    ins.append(dict(op="pow.Mine", **{"in": dict(data=[rnd.randrange(256) for _ in range(i["len"] - 8)], target=t, workers=1)}))
+                for _ in range(40):       # a boundary slip may show for a fraction of the messages only
+                    ins.append(dict(op="pow.Mine", **{"in": dict(data=[rnd.randrange(256) for _ in range(i["len"] - 8)], target=t, workers=3)}))
         elif e["op"] == "pow2.params":
             lx = sum(v << (12 * k) for k, v in enumerate(i["lx"]))
             if lx <= 3 ** 11 and i["len"] >= 8:
                 for _ in range(3):
                     ins.append(dict(op="pow2.Mine", **{"in": dict(data=[rnd.randrange(256) for _ in range(i["len"] - 8)], target=i["target"], workers=1)}))
+                for _ in range(150):      # soundness only (several workers): a boundary slip may show for a fraction of the messages only
+                    ins.append(dict(op="pow2.Mine", **{"in": dict(data=[rnd.randrange(256) for _ in range(i["len"] - 8)], target=i["target"], workers=4)}))
     return ins
 
 
